@@ -1,6 +1,7 @@
 package main
 
 import (
+	"go/constant"
 	"go/token"
 	"go/types"
 	"sort"
@@ -132,6 +133,18 @@ func mentions(f *ssa.Function, consts ...string) map[string]bool {
 						for _, c := range consts {
 							if s == c {
 								out[c] = true
+							}
+						}
+					}
+					// a one-character constant may be written as a byte or rune ('/' in strings.IndexByte)
+					if k, ok := (*op).(*ssa.Const); ok && k.Value != nil && k.Value.Kind() == constant.Int {
+						if n, exact := constant.Int64Val(k.Value); exact {
+							if bt, isB := k.Type().Underlying().(*types.Basic); isB && (bt.Kind() == types.Uint8 || bt.Kind() == types.Int32 || bt.Kind() == types.UntypedRune) {
+								for _, c := range consts {
+									if len(c) == 1 && int64(c[0]) == n {
+										out[c] = true
+									}
+								}
 							}
 						}
 					}
